@@ -316,3 +316,39 @@ mut("c19_valid_other_sampler", PD, '''        L = jnp.linalg.cholesky(self.Sigma
         x_samples''', '''        w_, V_ = jnp.linalg.eigh(self.Sigma)
         L = V_ * jnp.sqrt(w_)[:, None, :]
         x_samples''', [])
+# ---- C16
+mut("c16_Ekk_single_kernel", AC, '''        Ekk = (
+            p_k.multiply(self.k_func, update_full=True)
+            .integrate()
+            .reshape((p_x.R, self.Dk, self.Dk))
+        )''', '''        Ekk = (
+            p_k.multiply(self.k_func, update_full=True)
+            .integrate()
+            .reshape((p_x.R, self.Dk, self.Dk))
+        )
+        Ekk = 0.5 * (Ekk + jnp.einsum("ab,ac->abc", Ekx.reshape((p_x.R, -1))[:, : self.Dk] * 0 + p_k.integrate().reshape((p_x.R, self.Dk)), p_k.integrate().reshape((p_x.R, self.Dk))))''', ["C16"])
+mut("c16_cross_cov_no_mean_term", AC, '''        mu_x = p_x.mu
+        cov_yx = Eyx - mu_y[:, :, None] * mu_x[:, None]
+        mu_xy = jnp.concatenate([mu_x, mu_y], axis=1)
+
+        Sigma_xy = jnp.block(''', '''        mu_x = p_x.mu
+        cov_yx = Eyx
+        mu_xy = jnp.concatenate([mu_x, mu_y], axis=1)
+
+        Sigma_xy = jnp.block(''', ["C16"])
+mut("c16_exp_link_offset_sign", AC, '''        nu = self.W[:, 1:]
+        ln_beta = self.W[:, 0]
+        exp_h = factor.LinearFactor(nu=nu, ln_beta=ln_beta)''', '''        nu = self.W[:, 1:]
+        ln_beta = -self.W[:, 0]
+        exp_h = factor.LinearFactor(nu=nu, ln_beta=ln_beta)''', ["C16"])
+mut("c16_lrbf_kernel_height", AC, "        ln_beta = -0.5 * jnp.sum((self.mu / self.length_scale) ** 2, axis=1)\n", "        ln_beta = -0.5 * jnp.sum((self.mu / self.length_scale) ** 2, axis=1) - 0.5 * jnp.sum(jnp.log(self.length_scale ** 2), axis=1) * 0.1\n", ["C16", "C14"])
+# ---- C17
+mut("c17_exp_logdet_drops_Eh", AC, "        return .5 * Eh + fomega + .5 * fprime_omega  / omega_dagger * (Eh2 - omega_dagger ** 2)",
+    "        return fomega + .5 * fprime_omega  / omega_dagger * (Eh2 - omega_dagger ** 2)", ["C17"])
+mut("c17_cosh_logdet_loose_constant", AC, "        f_omega = jnp.log(jnp.cosh(omega_dagger))\n        fprime_omega = jnp.tanh(omega_dagger)\n        return",
+    "        f_omega = jnp.log(jnp.cosh(omega_dagger)) + 0.01\n        fprime_omega = jnp.tanh(omega_dagger)\n        return", ["C17"])
+mut("c17_relu_c0_sign", AC, '''        c0 = jnp.log(1. + omega_dagger)
+        c1 = 1 / (1. + omega_dagger)''', '''        c0 = -jnp.log(1. + omega_dagger)
+        c1 = 1 / (1. + omega_dagger)''', ["C17"])
+mut("c17_heaviside_logdet_ln2", AC, "int_ln1pf_h = jnp.log(2.) * vmap(integrate_f_i, out_axes=0)(w, w0)", "int_ln1pf_h = 0.7 * vmap(integrate_f_i, out_axes=0)(w, w0)", ["C17"])
+mut("c17_cond_cov_precision", AC, "            G_x = D_x / (1 + D_x) # [N x Dk]", "            G_x = D_x / (2 + D_x) # [N x Dk]", ["C17", "C02"])
